@@ -80,12 +80,23 @@ def _witness_instead(ctx, mod, why, cmd):
     bad = [o for o in bad if core.match_known(ctx.pid, o.name, findings) is None]
     if bad:
         os.makedirs(os.path.join(core.VERIF, 'replays'), exist_ok=True)
+        # a failing input from the native search, when there is one, goes into the replay files of these obligations
+        replay = None
+        ws0 = getattr(mod, 'native_witness', None) if mod is not None else None
+        if ws0 is not None:
+            try:
+                r0 = ws0(ctx)
+                replay = r0 if isinstance(r0, dict) and r0.get('confirmed') else None
+            except Exception:  # pylint: disable=broad-except
+                traceback.print_exc()
         for o in bad:
             import re as _re
             path = os.path.join(core.VERIF, 'replays', '%s-%s.json' % (ctx.pid, _re.sub(r'[^A-Za-z0-9_.-]+', '_', o.name)[-120:]))
-            json.dump({'property': ctx.pid, 'obligation': o.name, 'kind': o.kind, 'solver': 'syntactic', 'solver_output': o.detail, 'note': 'decided on the real AST; the remaining contracts could not be applied: ' + why}, open(path, 'w'), indent=1, default=str)
-            print('VIOLATION property=%s replay=%s no-failing-input-found' % (ctx.pid, path))
+            json.dump({'property': ctx.pid, 'obligation': o.name, 'kind': o.kind, 'solver': 'syntactic', 'solver_output': o.detail, 'note': 'decided on the real AST; the remaining contracts could not be applied: ' + why, 'replay': replay}, open(path, 'w'), indent=1, default=str)
+            print('VIOLATION property=%s replay=%s%s' % (ctx.pid, path, '' if replay else ' no-failing-input-found'))
             print('  failed obligation: %s' % o.name)
+            if replay:
+                print('  failing input found by the native search on the real code: %s' % json.dumps(replay.get('input', replay.get('what')), default=str)[:300])
         _fallback_evidence(ctx, cmd, 'violation of %d syntactic obligation(s); %s' % (len(bad), why), violations=len(bad))
         return True
     ws = getattr(mod, 'native_witness', None) if mod is not None else None
